@@ -394,6 +394,12 @@ pub fn grid(tier: &str, max_tick: u64) -> Vec<Cfg> {
         out.push(Cfg { n, w: wh, emb: Emb::new("huge", n, wh, max_tick, 11), pay: k });
         k += 1;
     }
+    // (2^64 ns / w) mod n lies in (0, 1) for the first three: a bucket index computed in 64 bits would be off by one bucket for some times only
+    for (n, wsecs) in [(2usize, 1_000_000_000u64), (4, 1 << 32), (17, 1 << 30), (3, 1 << 30), (5, 1 << 28)] {
+        let wh = Duration::from_secs(wsecs);
+        out.push(Cfg { n, w: wh, emb: Emb::new("huge2", n, wh, max_tick, 11), pay: k });
+        k += 1;
+    }
     out
 }
 
